@@ -43,6 +43,13 @@ Inc(s) == CASE s.t = "L" -> Mate(-1)
             [] s.t = "M" -> Mate(IF s.m < 0 THEN s.m - 1 ELSE s.m + 1)
             [] s.t = "H" -> s
 
+\* one ply less: the inverse of Inc on its range (used to shift a search window to the child's frame);
+\* decided scores and heuristic values do not change
+Dec(s) == CASE s.t = "M" /\ s.m = 1 -> Won
+            [] s.t = "M" /\ s.m = -1 -> Lost
+            [] s.t = "M" -> Mate(IF s.m < 0 THEN s.m + 1 ELSE s.m - 1)
+            [] OTHER -> s
+
 Max(a, b) == IF Less(a, b) THEN b ELSE a
 Min(a, b) == IF Less(a, b) THEN a ELSE b
 Leq(a, b) == ~Less(b, a)
